@@ -14,7 +14,9 @@ RULE = ("Case = one random history of 25-120 valid API operations (about 70 oper
         "(RO or RW alternating) after ~6% of the operations and at the end; at each such point the whole-file "
         "snapshot (every public readable property of every entity, data digests, ordered containers, role links) is "
         "compared before/after and against the shadow model.  Distinct by (set of entity kinds present, set of "
-        "operation kinds executed, reopen modes used); trivial = histories with fewer than 5 executed operations.")
+        "operation kinds executed, reopen modes used); trivial = histories with fewer than 5 executed operations.  Plus a fixed grid (32 cases): every numeric "
+        "attribute (ticks, position, extent, coefficients, origin, offset, interval, uncertainty) x {absent, set at creation} x "
+        "{whole numbers then fractions, fractions then whole numbers}, read back through three handles and after reopening.")
 ASSUMPTIONS = ["only valid calls are issued (refused calls are C12's business); a history in which a valid call raises is kept for the differential oracle but its model comparison is dropped (counted)",
                "names are drawn from a pool without UUID-looking names (those are C03's subject)",
                "timestamps come from a logical clock installed over nixio.util.now_int"]
@@ -68,6 +70,23 @@ def run_history(ctx, nix, path, rng, rep, maxlen, stop_after=None):
                     ctx.count("model_comparisons")
                 else:
                     ctx.count("model_comparisons_dropped")
+                # what the handles that were kept alive during the session (creation results among them) say about the place of
+                # their entity in the tree - to be compared with what fresh handles say after reopening
+                kept_parents = {}
+                for hid, hs in list(B.handles.items()):
+                    if hid not in B.sh.alive:
+                        continue        # never touch a handle of a deleted entity (use after delete is outside every statement)
+                    for h in hs:
+                        try:
+                            if isinstance(h, nix.Section):
+                                par = h.parent
+                            elif isinstance(h, nix.Source):
+                                par = h.parent_source
+                            else:
+                                continue
+                            kept_parents.setdefault(hid, set()).add(None if par is None else par.id)
+                        except Exception as e:
+                            kept_parents.setdefault(hid, set()).add("raises:" + type(e).__name__)
                 st["f"].close()
                 mode = rng.choice([nix.FileMode.ReadOnly, nix.FileMode.ReadWrite])
                 modes.add(mode)
@@ -85,6 +104,28 @@ def run_history(ctx, nix, path, rng, rep, maxlen, stop_after=None):
                     else:
                         mech = "reopen_diff:%s:%s" % (x["entity"].split(":")[0], x["change"])
                     ctx.violation(mech, dict(x, mode=mode, history=rep, step=i, log=B.log[-12:]), dict(rep, stop_after=i + 1))
+                if kept_parents:
+                    B.f = st["f"]
+                    fresh = {}
+                    for sec, _c in B.walk_sections():
+                        fresh[sec.id] = sec
+                    for blk in st["f"].blocks:
+                        for src, _c in B.walk_sources(blk):
+                            fresh[src.id] = src
+                    for hid, before in kept_parents.items():
+                        h = fresh.get(hid)
+                        if h is None:
+                            continue
+                        try:
+                            par = h.parent if isinstance(h, nix.Section) else h.parent_source
+                            after = None if par is None else par.id
+                        except Exception as e:
+                            after = "raises:" + type(e).__name__
+                        ctx.count("kept_handle_parents_compared")
+                        if before != {after}:
+                            ctx.violation("reopen_diff:%s.parent:kept_handle_vs_reopened" % type(h).__name__,
+                                          dict(entity=hid, name=h.name, kept_handles_said=sorted(map(str, before)), after_reopen=after, history=rep, step=i,
+                                               log=B.log[-12:]), dict(rep, stop_after=i + 1))
                 ctx.count("entities_compared", len(s1.table))
                 kinds = s1.kinds()
                 if mode == nix.FileMode.ReadOnly:
@@ -100,10 +141,82 @@ def run_history(ctx, nix, path, rng, rep, maxlen, stop_after=None):
             pass
 
 
+def overwrite_sweep(ctx, nix, path, only=None):
+    """Last write wins whatever kind of number the attribute held before: every numeric attribute is written with whole
+    numbers given as Python ints, then with fractions (and the other way round, and starting from 'absent'), and read back
+    through the writing handle, through a second handle, and after reopening - compared as numbers."""
+    import numpy as np
+    INTS, FLOATS = [1, 2], [0.5, 1.25]
+
+    def arr(f):
+        return f.blocks[0].data_arrays["a"]
+    ATTRS = {
+        "RangeDimension.ticks": (lambda f: arr(f).dimensions[0], "ticks", True),
+        "Tag.position": (lambda f: f.blocks[0].tags["t"], "position", True),
+        "Tag.extent": (lambda f: f.blocks[0].tags["t"], "extent", True),
+        "DataArray.polynom_coefficients": (lambda f: arr(f), "polynom_coefficients", True),
+        "DataArray.expansion_origin": (lambda f: arr(f), "expansion_origin", False),
+        "SampledDimension.offset": (lambda f: arr(f).dimensions[1], "offset", False),
+        "SampledDimension.sampling_interval": (lambda f: arr(f).dimensions[1], "sampling_interval", False),
+        "Property.uncertainty": (lambda f: f.sections[0].props["p"], "uncertainty", False),
+    }
+    cases = [(a, first, order) for a in sorted(ATTRS) for first in ("absent", "at_creation") for order in ("int_then_float", "float_then_int")]
+    for ci, (aname, first, order) in enumerate(cases):
+        if only is not None and ci != only:
+            continue
+        if only is None and ci % NSHARDS != ctx.shard % NSHARDS:
+            continue
+        get, field, vector = ATTRS[aname]
+        v1, v2 = (INTS, FLOATS) if order == "int_then_float" else (FLOATS, INTS)
+        if not vector:
+            v1, v2 = v1[0], v2[0]
+        rep = {"sweep": ci, "shard": ctx.shard}
+        info = dict(rep, attribute=aname, first=first, order=order, values=[v1, v2])
+        f = nix.File.open(path, nix.FileMode.Overwrite)
+        try:
+            b = f.create_block("b", "t")
+            a = b.create_data_array("a", "t", data=np.arange(4.0).reshape(2, 2))
+            a.append_range_dimension(v1 if (first == "at_creation" and aname == "RangeDimension.ticks") else None)
+            if first == "at_creation" and aname.startswith("SampledDimension"):
+                a.append_sampled_dimension(v1 if field == "sampling_interval" else 1.0, offset=v1 if field == "offset" else None)
+            else:
+                a.append_sampled_dimension(1.0)
+            b.create_tag("t", "t", v1 if (first == "at_creation" and aname == "Tag.position") else [0.0, 0.0])
+            f.create_section("s", "t").create_property("p", [1.0])
+            obj = get(f)
+            setattr(obj, field, v1)             # the first kind of number (for 'at_creation' a second time, through the setter)
+            other = get(f)                      # a second handle, obtained before the overwrite
+            getattr(other, field)
+            setattr(obj, field, v2)
+
+            def num(x):
+                if x is None:
+                    return None
+                return [float(y) for y in x] if vector else float(x)
+            want = num(v2)
+            for who, h in (("writing_handle", obj), ("second_handle", other), ("fresh_handle", get(f))):
+                got = num(getattr(h, field))
+                ctx.count("overwrite_reads")
+                if got != want:
+                    ctx.violation("overwritten_value_not_read_back:%s:%s:%s" % (aname, order, who), dict(info, read=got, expected=want), rep)
+            f.close()
+            f = nix.File.open(path, nix.FileMode.ReadOnly)
+            got = num(getattr(get(f), field))
+            if got != want:
+                ctx.violation("overwritten_value_not_read_back:%s:%s:after_reopen" % (aname, order), dict(info, read=got, expected=want), rep)
+            ctx.case(("overwrite", aname, first, order))
+        finally:
+            try:
+                f.close()
+            except Exception:
+                pass
+
+
 def run_shard(spec, ctx):
     from .. import env
     nix = env.import_nixio()
     path = env.scratch_file("c02_%d.nix" % ctx.shard)
+    ctx.guarded("overwrite_sweep", overwrite_sweep, ctx, nix, path)
     for k in range(spec["histories"]):
         rng = ctx.rng("c02", k)
         rep = {"case": k, "shard": ctx.shard, "maxlen": spec["maxlen"]}
@@ -125,4 +238,8 @@ def replay(w, ctx):
     nix = env.import_nixio()
     ctx.shard = w.get("shard", 0)
     ctx.case(("replay",))
+    if "sweep" in w:
+        ctx.case(("replay", 2))
+        overwrite_sweep(ctx, nix, env.scratch_file("c02_replay.nix"), only=w["sweep"])
+        return
     run_history(ctx, nix, env.scratch_file("c02_replay.nix"), ctx.rng("c02", w["case"]), w, w.get("maxlen", 120), w.get("stop_after"))
